@@ -428,7 +428,9 @@ def check_unloadable(rec):
     import itertools
     for bad_ref, order, first in itertools.product(
             ('[1]Other!A1', 'NoSuchSheet!A1'),
-            itertools.permutations(['S!D1', 'S!B1', 'S!C1', 'S!E1']),
+            list(itertools.permutations(['S!D1', 'S!B1', 'S!C1', 'S!E1'])) +
+            # (loading a further cell would finish the interrupted analysis)
+            list(itertools.permutations(['S!D1', 'S!B1', 'S!C1'])),
             (True, False)):
         cells = {'A1': 1, 'A2': 2, 'D1': '=A1+A2', 'C1': '=A1*A2',
                  'B1': ('=C1+' + bad_ref) if first else
